@@ -1,0 +1,19 @@
+//go:build verif
+
+package mp4
+
+import "sort"
+
+// VerifRegisteredBoxTypes returns the sorted key sets of the two box decoder registries
+// (io.Reader path and SliceReader path). Observation only, for the verification harness.
+func VerifRegisteredBoxTypes() (reader, sliceReader []string) {
+	for k := range decoders {
+		reader = append(reader, k)
+	}
+	for k := range decodersSR {
+		sliceReader = append(sliceReader, k)
+	}
+	sort.Strings(reader)
+	sort.Strings(sliceReader)
+	return reader, sliceReader
+}
